@@ -6,10 +6,11 @@ import os
 
 V = os.path.dirname(os.path.dirname(os.path.abspath(__file__)))
 props = [json.loads(l)["id"] for l in open(os.path.join(V, "properties.jsonl")) if l.strip()]
+READY = json.load(open(os.path.join(V, "manifest.d", "_ready.json")))  # integrator's list of finished checks
 checks, na = [], []
 for pid in props:
     fp = os.path.join(V, "manifest.d", pid + ".json")
-    if not os.path.exists(fp):
+    if not os.path.exists(fp) or pid not in READY:
         na.append({"property_id": pid, "reason": "check not built yet (no executable model + correspondence committed for it so far); planned in DESIGN.md section 5"})
         continue
     fr = json.load(open(fp))
